@@ -158,7 +158,7 @@ CHECKS = {
         "model-based property testing: generated cancel-scope programs run on a virtual-time loop against an independent reference interpreter (exact comparison where the semantics are schedule-independent, invariants everywhere)",
         "Programs over sleep/checkpoint/failing waits/5 scope constructors/shield/scope.cancel()/reschedule()/task-group children plus an external task.cancel() at a generated virtual time; "
         "invariants (no unshielded checkpoint completes in a cancelled or expired scope, shields run to completion, a foreign cancel is always delivered, no leftover cancellation request, TimeoutError iff cancelled_caught) "
-        "on every program, and marks/outcome/scope flags compared exactly with the reference interpreter on tie-free programs.",
+        "on every program, and marks/outcome/scope flags compared exactly with the reference interpreter on tie-free programs; layer foreign-mix: library scopes beside/nested with asyncio.timeout() blocks and shields, exact trace against a second small reference.",
         "Reference interpreter (pbt/scope_model.py) is trusted; ties inside one virtual instant are detected and only the invariants are judged there; one known finding (D5) is excluded by shape, counted, and reported as KNOWN-FINDING from its replays; asyncio backend only.",
         "DESIGN.md section 3 C13",
     ),
